@@ -476,6 +476,18 @@ func (w *World) Apply(op Op) (out *Outcome) {
 	return out
 }
 
+// RetryEnd repeats only the end of a transaction (confirm / cancel) that Apply had started as out.TxID.
+func (w *World) RetryEnd(out *Outcome, op Op) error {
+	ctx := context.Background()
+	switch op.End {
+	case "cancel":
+		return w.DS.TransactionCancel(ctx, out.TxID)
+	case "", "confirm":
+		return w.DS.TransactionConfirm(ctx, out.TxID)
+	}
+	return fmt.Errorf("RetryEnd: unsupported end %q", op.End)
+}
+
 // ---------------------------------------------------------------------------
 // observation of the stores
 
